@@ -35,6 +35,12 @@ BATCH = 2000
 
 def cases(ctx):
     q = ctx.tier == 'quick'
+    # ---- first of all (every shard): does the lexer finish on short adversarial lines?  If not, that
+    # is the verdict, and the other workloads - which would hang in the same regex, out of reach of
+    # the step budget - are not run
+    yield 'regex-time', {}
+    if getattr(ctx, 'lexer_hangs', False):
+        return
     # ---- exhaustive strings
     plans = [(S.ALPHA26, L) for L in range(0, 4 if q else 5)]
     if not q:
@@ -87,7 +93,6 @@ def cases(ctx):
     # ---- every unusual character in first position / before the first token
     if ctx.shard == 0:
         yield 'firstchar', {}
-        yield 'regex-time', {}
     # ---- long flat texts (hundreds of tokens on few nesting levels) and their truncations
     for i in range(12 if q else 150):
         yield 'long', {'i': i}
@@ -156,7 +161,9 @@ def oracle(ctx, kind, p):
         batch = []
         for n in (10, 20, 30, 40, 60):
             batch += ['(a :op "' + '\\"' * n, '(a / "' + '\\\\' * n + 'x', '(a / b~e.' + '1,' * n, '(a / b~' + '1' * n + ',',
-                      '(a ' + ':' * n, '#' * n + '(', '(a / ' + '"' * (2 * n + 1), 'r(a, "' + '\\"' * n, '~' * n + 'e.1']
+                      '(a ' + ':' * n, '#' * n + '(', '(a / ' + '"' * (2 * n + 1), 'r(a, "' + '\\"' * n, '~' * n + 'e.1',
+                      # an opening quote that is never closed on its line, followed by ordinary characters
+                      '(a :op "' + 'x' * n, '(a / "' + 'ab ' * n + ')', 'r(a, "' + 'y' * n, '"' + 'z' * (4 * n)]
         code = ('import sys, json, penman\n'
                 'for s in json.load(sys.stdin):\n'
                 '    for f in (penman.parse, lambda x: list(penman.iterparse(x)), penman.parse_triples):\n'
@@ -170,6 +177,7 @@ def oracle(ctx, kind, p):
             if 'done' not in r.stdout:
                 ctx.fail('regex-time:child-failed', detail={'stderr': r.stderr[-600:]})
         except subprocess.TimeoutExpired:
+            ctx.lexer_hangs = True
             ctx.fail('termination:lexer-does-not-finish', mech='regex',
                      detail={'batch_size': len(batch), 'limit_s': 120,
                              'note': 'short adversarial inputs (<= 130 characters) not parsed within 120 s'},
